@@ -36,6 +36,11 @@ def run(ctx):
         hs.append([["Put", 1, 1], ["Put", 2, 1], ["Put", 3, 1], ["IterCreate", 1, 0], ["IterCreate", 2, 0], ["IterNext", 1], ["IterNext", 1],
                    ["Rm", 2], ["Rm", 3], ["Rm", 1], ["Put", 5, 2], ["IterNext", 2], ["Put", 7, 2], ["IterNext", 2], ["IterNext", 2], ["IterFree", 2],
                    ["IterNext", 1], ["IterNext", 1], ["IterNext", 1]] + closing([1, 2, 3, 5, 7], 2))
+        # the history of the repaired KF-C18-1 (an entry removed under a parked iterator is gone at once); on the trie it
+        # falls under KF-C18-2 and is left to that finding's reproducer
+        if impl != "trie":
+            hs.append([["Put", 1, 1], ["IterCreate", 1, 0], ["IterNext", 1], ["Rm", 1], ["Get", 1], ["Rm", 1], ["Count"], ["Put", 1, 2], ["Get", 1],
+                       ["IterCreate", 2, 0], ["IterNext", 2], ["IterNext", 2], ["IterNext", 1]] + closing([1], 2))
         if impl == "skip":
             ctx.sample({"impl": impl, "history": maps.to_lines(hs[nx])})
         ctx.log("%s: %d histories (%d exhaustive)" % (impl, len(hs), nx))
